@@ -8,7 +8,7 @@
    abstract value [fsn] whose listing ORDER is arbitrary (every theorem
    quantifies over it); special files appear only as [Other] = skipped. *)
 From Coq Require Import List ZArith Bool Permutation Sorted.
-From NT Require Import Sx Rose FsLoad FsLoadProofs FsSaveLoadProofs.
+From NT Require Import Sx Rose FsLoad FsLoadProofs FsSaveLoadProofs FsCanonProofs.
 From NTGen Require Import Generated.
 Import ListNotations.
 Open Scope Z_scope.
@@ -88,6 +88,35 @@ Theorem C19_listing_order_irrelevant_deep : forall l l' : list fsn,
   lperm l l' -> wf_listing l -> load true l = load true l'.
 Proof. exact load_order_independent. Qed.
 Print Assumptions C19_listing_order_irrelevant_deep.
+
+(* ---- the explicit bijection: the tree read back as a directory ([dir_of]: a node with the
+   directory flag becomes a folder holding its children, any other node a file) IS the
+   scanned directory without the skipped special files ([strip_l]) up to the order of
+   every listing ([lperm]); so nodes and entries correspond one to one, with the same
+   parent, name, flag, size, mtime.  For sort on and off, for every listing order ---- *)
+Theorem C19_tree_is_the_directory : forall (sort : bool) (listing : list fsn),
+  lperm (strip_l listing) (dir_of (load sort listing)).
+Proof. exact load_is_directory. Qed.
+Print Assumptions C19_tree_is_the_directory.
+
+Theorem C19_special_files_are_ignored : forall (sort : bool) (listing : list fsn),
+  load sort (strip_l listing) = load sort listing.
+Proof. exact load_strip. Qed.
+Print Assumptions C19_special_files_are_ignored.
+
+(* ---- sort=True: the result is canonical ([canon]: every folder ordered, names distinct, folder
+   nodes carry size 0 / no mtime, file nodes are leaves with an mtime) and it is the ONLY
+   canonical tree that is the directory up to listing order: the statements above determine
+   the output completely ---- *)
+Theorem C19_sorted_tree_canonical : forall listing : list fsn,
+  wf_listing listing -> canon (load true listing).
+Proof. exact load_canon. Qed.
+Print Assumptions C19_sorted_tree_canonical.
+
+Theorem C19_sorted_tree_unique : forall (listing : list fsn) (g : list ft),
+  wf_listing listing -> lperm listing (dir_of g) -> canon g -> load true listing = g.
+Proof. exact load_unique. Qed.
+Print Assumptions C19_sorted_tree_unique.
 
 (* ---- the FileSystemTree mappers are inverse on FileSystemEntry ----
    [entry_ok]: a folder entry has size 0 and no mdate (what the constructor and the loader
@@ -206,4 +235,13 @@ Proof.
       * eapply FP_dir with (l1 := []); constructor.
       * eapply FP_dir with (l1 := []); constructor.
     + unfold ex_dir'. perm19.
+Qed.
+
+Example C19_example_canon :
+  canon (load true ex_dir) /\ length (dir_of (load true ex_dir)) = 7%nat /\
+  length (strip_l ex_dir) = 7%nat /\ length ex_dir = 8%nat /\
+  load true (dir_of (load false ex_dir)) = load true ex_dir.
+Proof.
+  split; [apply C19_sorted_tree_canonical; apply C19_example_hypotheses|].
+  vm_compute. repeat split; reflexivity.
 Qed.
